@@ -278,6 +278,29 @@ def decoder_length(prog, cd, rep, pairs):
                 rep.fail("decoder-length", mod, fq, obj["node"], f"the decoded block's `{battr}` is `{gotb}`, not the stored `{battr}` its tracks were decoded with: every decoded track then differs in length from the block "
                          "(right-length tracks are refused, wrong-length ones accepted)", construct=f"{fq} block {battr}")
     rep.floor("decoder-length", n, 3)
+    # .. and a track decoder hands out the SAME frame-sized data on every way it can end: a second return site (a "fast path") that
+    # builds the track from something else than the buffer sized by the frame count yields tracks of another length
+    from ..layout import Construct, Ret, walk_terms
+    for cname, (K, tp, battr, gst) in pairs.items():
+        if K is None:
+            continue
+        ku = cd.units.get(K.name)
+        if ku is None:
+            continue
+        terms = list(walk_terms(ku.rterms))
+        rets = {norm(t.value) for t in terms if isinstance(t, Ret) and t.value is not None}
+        cons = [t for t in terms if isinstance(t, Construct) and t.cls is not None and t.cls.name == K.name and t.ph in rets]
+        if not cons:
+            continue
+        main = cons[-1]
+        sig = lambda c_: ([norm(a) for a in c_.args], {k: norm(v) for k, v in c_.kwargs.items()})
+        kmod, kfq = ku.reader.module.path.name, ku.reader.qualname
+        for c_ in cons[:-1]:
+            if sig(c_) != sig(main):
+                rep.fail("decoder-length", kmod, kfq, c_.node, f"a return of {kfq} builds the {K.name} from `{', '.join(sig(c_)[0][1:] or sig(c_)[0])}` where the decoder's last return uses "
+                         f"`{', '.join(sig(main)[0][1:] or sig(main)[0])}` (the data sized by the frame count it was given): tracks decoded on that path can differ in length from their block",
+                         construct=f"{kfq} second return {norm(c_.node)[:60]}")
+        rep.ok("decoder-length", f"{kfq}: {len(cons)} return site(s) build the {K.name} from the same frame-sized data", nontrivial=True)
 
 
 def run(prog, rep):
